@@ -62,9 +62,9 @@ def cfg(name, consts, invs=(), props=(), view=None):
     return p
 
 
-def pipe_consts(trees, qnames, maxops, net='P_NetSmall', contents='{"x", ""}', seg='None', kinds_nodes=8, **kw):
+def pipe_consts(trees, qnames, maxops, net='P_NetSmall', contents='{"x", ""}', seg='None', max_nodes=8, **kw):
     c = dict(InitTrees='<- ' + trees, AttachPrefixes='<- P_Prefixes', QNames='<- ' + qnames, MaxOps=maxops,
-             Contents=contents, AppParams='{"q"}', NetContents='<- ' + net, ExtComps='<- P_Ext', MaxNodes=kinds_nodes,
+             Contents=contents, AppParams='{"q"}', NetContents='<- ' + net, ExtComps='<- P_Ext', MaxNodes=max_nodes,
              SegContents='<- ' + seg)
     c.update(kw)
     return c
@@ -150,7 +150,7 @@ def stage_a(ctx):
                          {'invs': INV_RUN, 'props': ['CacheMonotone'], 'workers': w}))
     if not q:
         jobs.append(('P: 2 of 10 policy choices placed by TLC on 4 nodes, 2 operations',
-                     pipe_consts('E_Trees', 'P_QNames1', 2, QueryOn='FALSE', PolChoices='<- E_Pol', MaxPol=2),
+                     pipe_consts('E_Trees', 'E_QNames', 2, QueryOn='FALSE', PolChoices='<- E_Pol', MaxPol=2),
                      {'invs': INV_RUN, 'props': ['CacheMonotone'], 'workers': w}))
     # S: SegmentedNode and LocalResource
     segc = pipe_consts('S_Trees', 'S_QNames', 2, QueryOn='FALSE', seg='S_Contents', contents='{"x"}', net='S_Net', ExtComps='<- None',
@@ -646,7 +646,7 @@ class Driver:
 
 
 def stage_c(ctx, recs):
-    n = ctx.pick(150, 4000)
+    n = ctx.pick(150, 3000)
     for i in range(n):
         d = Driver(ctx.rng, big=(i % 3 != 0))
         rec, err = d.run()
